@@ -2,6 +2,7 @@ import Jwt.Lemmas.Verify
 import Jwt.Lemmas.Json
 import Jwt.Checker
 import Jwt.Generated.ClaimRules
+import Jwt.Lemmas.PipelineConfig
 /-!
 # C04 — claim checks (exp, nbf, iss, sub, aud) are enforced exactly as configured
 
@@ -275,5 +276,21 @@ example : nbfFails Checker.new.cfg.claims (.obj [(N.nbf, .int 100)]) 100 = false
     nbfFails Checker.new.cfg.claims (.obj [(N.nbf, .int 101)]) 100 = true := by decide
 example : (abs (apply (apply Checker.new (.claimSet .iss (some [97]))) (.leeway .exp (-1))).cfg.claims) =
     { exp := .off, nbf := .on 0, iss := .must [97], sub := .off, aud := .off } := by decide
+
+/-- **The policy calls are the source's.** `jwt_checker_claim_set`, `jwt_checker_claim_del` and `jwt_checker_time_leeway`
+are *generated* from `jwt-common.c` with flags for what they store. The claim's bit is set as soon as a value for
+iss/sub/aud is given -- whether or not storing it then succeeds (a refused value leaves the claim checked against nothing:
+fail closed); a leeway is stored as passed, of any size, and switches the check on unless it is `<= __DISABLE`. -/
+theorem C04_claim_set_is_source (ck : Checker) (c : ClaimId) (v : Option Bytes) :
+    let sf : Nat := match v with | some x => if validUtf8 x then 0 else 1 | none => 0
+    let r := Jwt.Generated.Pipeline.checkerClaimSet false v.isNone (checkerClaimName c).isNone sf
+    (ck.claimSet c v).2 = r.1 ∧ (r.2.2 = true → (ck.claimSet c v).1.cfg.claims.mask = ck.cfg.claims.mask.set c true) :=
+  ⟨(checker_claimSet_generated ck c v).1, (checker_claimSet_generated ck c v).2.1⟩
+
+theorem C04_leeway_is_source (ck : Checker) (c : ClaimId) (secs : Int) :
+    let r := Jwt.Generated.Pipeline.timeSpan false (c = .exp) (c = .nbf) (secs ≤ Jwt.Generated.checkerDisable)
+    (ck.timeLeeway c secs).2 = r.1 ∧ (r.2.2.1 = true → (ck.timeLeeway c secs).1.cfg.claims.expLeeway = secs) ∧
+    (r.2.2.2.1 = true → (ck.timeLeeway c secs).1.cfg.claims.nbfLeeway = secs) :=
+  ⟨(checker_timeLeeway_generated ck c secs).1, (checker_timeLeeway_generated ck c secs).2.1, (checker_timeLeeway_generated ck c secs).2.2.1⟩
 
 end Jwt.Props.C04
